@@ -142,11 +142,13 @@ pub struct Enc<'r> {
     /// numerals written: (byte offset, length, width of the field in bits, inside a bracketed response code)
     pub num_spans: Vec<(usize, usize, u8, bool)>,
     pub in_code: bool,
+    /// spell every `string` as a literal (C08)
+    pub force_literal: bool,
 }
 
 impl<'r> Enc<'r> {
     pub fn new(rng: &'r mut Rng, vary: bool) -> Self {
-        Enc { out: vec![], rng, vary, literal_spans: vec![], num_spans: vec![], in_code: false }
+        Enc { out: vec![], rng, vary, literal_spans: vec![], num_spans: vec![], in_code: false, force_literal: false }
     }
     pub fn raw(&mut self, s: &[u8]) {
         self.out.extend_from_slice(s);
@@ -209,7 +211,7 @@ impl<'r> Enc<'r> {
     /// `string`: quoted when the content allows it, else literal
     pub fn string(&mut self, b: &[u8]) {
         let can_quote = b.iter().all(|c| is_quoted_safe(*c));
-        if can_quote && !(self.vary && self.rng.chance(1, 4)) {
+        if can_quote && !self.force_literal && !(self.vary && self.rng.chance(1, 4)) {
             self.quoted(b)
         } else {
             self.literal(b)
